@@ -97,3 +97,14 @@ def d19_self_loop_in_temporal_dag():
 
 def match_d19(v):
     return v.get('check', '').endswith('.selfloop')
+
+
+def d23_empty_span_stored_inverted():
+    g = dn.DynGraph()
+    g.add_interaction(1, 2, 5, 5)
+    tl = g._adj[1][2]['t']
+    return tl == [[5, 4]]
+
+
+def match_d23(v):
+    return v.get('d23') is True
